@@ -104,6 +104,14 @@ RULES = {
         "(parameter named row, loop variable bounded by rows(), a value read from row_numbers()), and an ordinal (a variable compared with "
         "used_rows()) is compared with a row number only through row_numbers()[ordinal] (as operator() does). Broken -> heap overrun / wrong "
         "row for every CSCR matrix with empty rows.", 12),
+    "C02.lockstep-moves": (
+        "in-place sort / permutation of an index array that has a parallel value array (col_ind/val of CSR and BCSR permute, the key/value "
+        "arrays of SparseVector's insertion sort): inside the innermost loop nest in which both arrays are rearranged in place, every "
+        "statement list applies the same element moves to both arrays - a move A[f] = A[g], a save t = A[h] and a restore A[f] = t (t saved "
+        "from A[h]) on one array is matched by the move / save / restore with the same positions f, g, h (compared as polynomials in the "
+        "loop variables) on the other. Entry k of the value array belongs to entry k of the index array, so any position permutation applied "
+        "to one must be applied to the other. Broken (keys shifted one by one, blocks exchanged once at the end) -> values end up under "
+        "the wrong column index as soon as an entry travels two or more slots.", 4),
     "C02.size-pairing": (
         "every array pushed into _elements/_indices is paired, in order, with a push of the same extent into _elements_size/"
         "_indices_size; at every exit the size vector has exactly as many entries as its pointer vector (symbolic lengths through "
@@ -116,12 +124,13 @@ RULES = {
         "'shared' always with the increase_memory loop, 'copy' = MemoryPool::copy of the like-indexed source array with the "
         "recorded extent. Broken -> weak/deep clones not value-independent, or shallow clones not aliasing.", 5),
     "C02.clone-cross-type": (
-        "the templated Container::clone(const Container<DT2,IT2>&, mode) is evaluated symbolically (temporary := assign(source); then "
-        "clone(temporary, mode) / move(temporary) per mode) by composing the extracted sharing table of Container::assign with the extracted "
-        "aliasing table of Container::clone: whenever the enum documentation promises freshly allocated arrays (data arrays for Layout, "
-        "Weak, Deep, Allocate; index arrays for Deep, Allocate) the result must not alias the source, for every (data type same/"
-        "different) x (index type same/different) instantiation. Broken (e.g. adopting the conversion temporary, whose equal-typed "
-        "arrays are shared with the source) -> a weak clone across index types aliases the source's values.", 18),
+        "every clone overload of every container class - the templated Container::clone(const Container<DT2,IT2>&, mode), T::clone(const T<DT2,IT2>&, mode) "
+        "of the derived classes and the value-returning T::clone(mode) const - is evaluated symbolically per clone mode and per (data type same/different) x "
+        "(index type same/different) instantiation: calls are composed from the extracted sharing table of Container::assign, the extracted aliasing table "
+        "of the same-type Container::clone and move; any other member that receives the source (T::convert(other), helpers) is followed into its body. "
+        "Whenever the enum documentation promises freshly allocated arrays (data arrays for Layout, Weak, Deep, Allocate; index arrays for Deep, Allocate) "
+        "the result must not alias the source. Broken (a cross-type clone that delegates to convert/assign, which share the arrays of the unchanged type; "
+        "adopting the conversion temporary) -> a deep/weak clone across index types aliases the source's values.", 400),
     "C02.convert-sharing": (
         "Container::assign (same-container-kind convert): arrays of an equal data (index) type are shared with the source "
         "(+increase_memory), arrays of a different type are freshly allocated and filled by MemoryPool::convert from the like-indexed "
@@ -1791,6 +1800,181 @@ def banded_rules(ck, fam, facts, roles_tab, seen_fail):
 
 
 # -------------------------------------------------------------------------------------------------
+# parallel arrays: lock-step element moves of in-place sorts / permutations
+# -------------------------------------------------------------------------------------------------
+
+def lockstep_rules(ck, fam, seen_fail):
+    for fn in fam.functions():
+        if fn.body is None:
+            continue
+        loops = [n for n in fn.nodes() if n.get("k") in ("For", "While", "Do")]
+        if not loops:
+            continue
+        def as_assign(n):
+            """(lhs, rhs) of a plain assignment - built-in `=` or the copy/move assignment operator of a class-typed element"""
+            if n.get("k") == "Assign" and n.get("op") == "=":
+                return n["lhs"], n["rhs"]
+            if n.get("k") == "OpCall" and n.get("op") == "=" and len(n.get("a") or []) == 2:
+                return n["a"][0], n["a"][1]
+            return None
+        if not any(as_assign(n) is not None and L.unwrap(as_assign(n)[0]).get("k") == "Index" for n in fn.nodes()):
+            continue
+        it = L.Interp(fam, fn)
+        it.is_loop_var = lambda d: False
+        par = it.par
+
+        def strip(e):
+            e = L.unwrap(e)
+            while e is not None and e.get("k") in ("Construct", "TempObj") and len(e.get("a", [])) == 1:
+                e = L.unwrap(e["a"][0])
+            return e
+
+        def arr_id(e, depth=0):
+            """(array name, offset polynomial) of a pointer expression: accessor of an object, pointer parameter, local pointer
+            (resolved through its single definition), base + offset"""
+            e = strip(e)
+            if e is None or depth > 5:
+                return None
+            k = e.get("k")
+            if k == "Bin" and e.get("op") in ("+", "-"):
+                b = arr_id(e["lhs"], depth + 1)
+                if b is None:
+                    return None
+                off = poly(it, e["rhs"])
+                return b[0], (L.psub(b[1], off) if e["op"] == "-" else {m: b[1].get(m, 0) + off.get(m, 0) for m in set(b[1]) | set(off) if b[1].get(m, 0) + off.get(m, 0)})
+            if k == "Ref" and e.get("dk") == "param":
+                return "param:" + e["n"], {}
+            if k == "Ref" and e.get("dk") == "local" and "*" in (fn.ntype(e) or ""):
+                defs = it.ptr_defs().get(e["d"], [])
+                if len(defs) == 1:
+                    r = arr_id(defs[0], depth + 1)
+                    if r is not None:
+                        return r
+                return "local:%s" % e["n"], {}
+            if k == "MCall":
+                return L._norm_extent(it, e), {}
+            return None
+
+        def nf(idx, off):
+            p_ = poly(it, idx)
+            tot = {m: p_.get(m, 0) + off.get(m, 0) for m in set(p_) | set(off)}
+            return pshow({m: c for m, c in tot.items() if c})
+
+        # temporaries that hold a saved element of one array
+        saves = {}          # temp decl -> set of (array, position)
+        other_defs = set()
+        for n in fn.nodes():
+            tgt = src = None
+            if n.get("k") == "Var" and n.get("init") is not None and not n.get("ref") and "*" not in (fn.type(n.get("t")) or ""):
+                tgt, src = n["d"], n["init"]
+            elif n.get("k") == "Assign" and L.unwrap(n["lhs"]).get("k") == "Ref" and L.unwrap(n["lhs"]).get("dk") == "local":
+                tgt, src = L.unwrap(n["lhs"])["d"], (n["rhs"] if n.get("op") == "=" else None)
+            elif n.get("k") == "OpCall" and n.get("a") and L.unwrap(n["a"][0]).get("k") == "Ref" and L.unwrap(n["a"][0]).get("dk") == "local" \
+                    and n.get("op") in ("=", "+=", "-=", "*=", "/="):
+                tgt, src = L.unwrap(n["a"][0])["d"], (n["a"][1] if n.get("op") == "=" and len(n["a"]) == 2 else None)
+            if tgt is None:
+                continue
+            if n.get("k") == "Var" and src is not None and L.unwrap(src).get("k") in ("Construct", "TempObj", "ValueInit") and not L.unwrap(src).get("a"):
+                continue          # `ValueType swap_val;` - default construction, not a value
+            s0 = strip(src) if src is not None else None
+            a = arr_id(s0["b"]) if s0 is not None and s0.get("k") == "Index" else None
+            if a is not None:
+                saves.setdefault(tgt, set()).add((a[0], nf(s0["idx"], a[1])))
+            else:
+                other_defs.add(tgt)
+        temps = {d: v for d, v in saves.items() if d not in other_defs and len({a for a, _ in v}) == 1}
+
+        def block_of(n):
+            p_ = par.get(id(n))
+            while p_ is not None and p_.get("k") not in ("Block", "For", "While", "Do", "If"):
+                p_ = par.get(id(p_))
+            return p_
+
+        events = []          # (array, kind, signature tuple, node)
+        opaque = []          # (array, node): a store into / call on the array that is not a move
+        for n in fn.nodes():
+            if as_assign(n) is not None:
+                lhs, rhs = strip(as_assign(n)[0]), strip(as_assign(n)[1])
+                if lhs.get("k") == "Index":
+                    a = arr_id(lhs["b"])
+                    if a is None:
+                        continue
+                    f = nf(lhs["idx"], a[1])
+                    if rhs.get("k") == "Index" and (arr_id(rhs["b"]) or (None,))[0] == a[0]:
+                        b = arr_id(rhs["b"])
+                        events.append((a[0], "move", ("move", f, nf(rhs["idx"], b[1])), n))
+                    elif rhs.get("k") == "Ref" and rhs.get("d") in temps and next(iter(temps[rhs["d"]]))[0] == a[0]:
+                        events.append((a[0], "restore", ("restore", f, tuple(sorted(h for _, h in temps[rhs["d"]]))), n))
+                    else:
+                        opaque.append((a[0], n))
+                elif lhs.get("k") == "Ref" and lhs.get("d") in temps and rhs.get("k") == "Index":
+                    a = arr_id(rhs["b"])
+                    if a is not None:
+                        events.append((a[0], "save", ("save", nf(rhs["idx"], a[1])), n))
+            elif n.get("k") == "Var" and n.get("d") in temps and n.get("init") is not None and strip(n["init"]).get("k") == "Index":
+                s0 = strip(n["init"])
+                a = arr_id(s0["b"])
+                if a is not None:
+                    events.append((a[0], "save", ("save", nf(s0["idx"], a[1])), n))
+        movers = {a for a, kind, _, _ in events if kind in ("move", "restore")}
+        if len(movers) < 2:
+            continue
+
+        def inside(loop, n):
+            return any(x is n for x in walk(loop))
+
+        key = L.fkey(fn)
+        done = set()
+        pairs = sorted((a, b) for a in movers for b in movers if a < b)
+        for a, b in pairs:
+            common = [lp for lp in loops if any(x[0] == a and x[1] in ("move", "restore") and inside(lp, x[3]) for x in events)
+                      and any(x[0] == b and x[1] in ("move", "restore") and inside(lp, x[3]) for x in events)]
+            # the outermost loops in which both arrays are rearranged: everything below them is one rearrangement
+            minimal = [lp for lp in common if not any(o is not lp and inside(o, lp) for o in common)]
+            for ordn, lp in enumerate(minimal):
+                sub = "%s~%s%s" % (a.replace("param:", "").replace("local:", ""), b.replace("param:", "").replace("local:", ""), "#%d" % ordn if len(minimal) > 1 else "")
+                if (key, sub) in done:
+                    continue
+                done.add((key, sub))
+                # anything else that writes one of the two arrays inside the loop makes the comparison meaningless
+                blur = [n_ for arr, n_ in opaque if arr in (a, b) and inside(lp, n_)]
+                for c in walk(lp):
+                    if is_call(c) and c.get("k") in ("Call", "MCall") and not c.get("cconst"):
+                        for arg in c.get("a") or []:
+                            r = arr_id(arg) if "*" in (fn.ntype(L.unwrap(arg)) or "") else None
+                            if r is not None and r[0] in (a, b):
+                                blur.append(c)
+                if blur:
+                    ck.ob("C02.lockstep-moves", "%s/%s" % (key, sub), True, "undecided: %s is also written by `%s` inside the loop at line %s" % (
+                        a if any(arr == a for arr, n_ in opaque if n_ is blur[0]) else b, render(blur[0])[:60], lp.get("l")), fn.file, lp.get("l"), trivial=True)
+                    continue
+                sig = {}
+                for arr, kind, tup, n_ in events:
+                    if arr in (a, b) and inside(lp, n_):
+                        blk = block_of(n_)
+                        sig.setdefault(id(blk), {"blk": blk, a: [], b: []})[arr].append(tup)
+                bad = None
+                for v in sig.values():
+                    if sorted(v[a]) != sorted(v[b]):
+                        bad = v
+                        break
+                ok = bad is None
+                if ok:
+                    det = "loop at line %s: %s and %s are rearranged by the same moves in every statement list (%d statement lists, %d moves each)" % (
+                        lp.get("l"), a, b, len(sig), sum(len(v[a]) for v in sig.values()))
+                else:
+                    def show(lst):
+                        return "; ".join("%s[%s] <- %s" % ("A", t[1], "A[%s]" % t[2] if t[0] == "move" else "saved A[%s]" % "|".join(t[2])) if t[0] != "save" else "save A[%s]" % t[1] for t in sorted(lst)) or "nothing"
+                    det = ("loop at line %s: the statement list at line %s moves %s by {%s} but %s by {%s}: the two arrays are parallel (entry k of one belongs to entry k of the other), "
+                           "so after this loop the values no longer sit under their indices whenever the differing moves take effect (an entry travelling two or more positions)" % (
+                               lp.get("l"), (bad["blk"] or {}).get("l"), a, show(bad[a]), b, show(bad[b])))
+                    if ("lockstep", key, sub) in seen_fail:
+                        continue
+                    seen_fail.add(("lockstep", key, sub))
+                ck.ob("C02.lockstep-moves", "%s/%s" % (key, sub), ok, det, fn.file, lp.get("l"), sample={"function": fn.full, "arrays": [a, b], "detail": det})
+
+
+# -------------------------------------------------------------------------------------------------
 # E13: clone table / convert sharing
 # -------------------------------------------------------------------------------------------------
 
@@ -1974,14 +2158,25 @@ def is_driver_tu(fx):
     return bool(fx.tu) and fx.tu.endswith("c02_convert.cpp")
 
 
+def _included_digest():
+    """the driver includes tu/c20_containers.cpp; the fact cache is keyed by the driver file only, so key it by the
+    included file as well (an otherwise unused macro)"""
+    import hashlib
+    try:
+        h = hashlib.sha256(open(os.path.join(os.path.dirname(os.path.dirname(os.path.abspath(__file__))), "tu", "c20_containers.cpp"), "rb").read()).hexdigest()[:12]
+    except OSError:
+        h = "none"
+    return "-DVERIF_INCLUDED_DIGEST_%s" % h
+
+
 def run(tier):
     ck = Check("C02", tier)
     declare(ck)
-    facts = featlib.extract(DRIVER, files=FILES)
+    facts = featlib.extract(DRIVER, files=FILES, extra=(_included_digest(),))
     ck.tu(facts)
     all_facts = [facts]
     if tier == "thorough":
-        f2 = featlib.extract(DRIVER, files=FILES, extra=ALT)
+        f2 = featlib.extract(DRIVER, files=FILES, extra=ALT + (_included_digest(),))
         ck.tu(f2)
         all_facts.append(f2)
         for t in ("kernel/lafem/sparse_matrix_conversion-test.cpp", "kernel/lafem/sparse_matrix_csr-test.cpp", "kernel/lafem/sparse_matrix_bcsr-test.cpp",
@@ -2017,6 +2212,7 @@ def run(tier):
         bucket_order_rules(ck, fam, seen_fail)
         offset_store_rules(ck, fam, seen_fail)
         cscr_kind_rules(ck, fam, fx, seen_fail)
+        lockstep_rules(ck, fam, seen_fail)
         if is_driver_tu(fx):
             alias_kernel_rules(ck, fam, fx, seen_fail)
             alias_member_rules(ck, fam, fx, roles_tab, seen_fail)
